@@ -488,7 +488,166 @@ def rule_K(ctx):
                               witness={'tested': list(tk[:3]), 'recorded': list(got)}, node=a.node, key='inventory-test')
 
 
+def rule_Q(ctx):
+    """C08.Q registration and every query form on the finite case domain (no false negatives).
+
+    The index code depends on coordinates only through floor() and comparisons with integers, on the grid only through its two
+    sizes, and never looks inside the registered data.  SpatialIndex methods are interpreted (tlint.orders; nothing is executed) on a
+    non-square 3 x 2 grid of unit cells whose cells hold one marker each, with vertices on the integrality classes {k, k + 1/2}
+    including the closed upper border, tracks of three vertices, window radii 0..3."""
+    import itertools
+    import math
+    from .. import absint, orders
+    f0 = _m(ctx, '__getCell')
+    CS, LS = 3, 2
+
+    class Coord(orders.PyStub):
+        isa = ('ENUCoords',)
+
+        def __init__(self, x, y, z=0):
+            self.x, self.y = x, y
+
+        def getX(self):
+            return self.x
+
+        def getY(self):
+            return self.y
+
+        def __repr__(self):
+            return '(%g, %g)' % (self.x, self.y)
+
+    class ObsS(orders.PyStub):
+        def __init__(self, c):
+            self.position = c
+
+    class TrackS(orders.PyStub):
+        isa = ('Track',)
+
+        def __init__(self, coords):
+            self.obs = [ObsS(c) for c in coords]
+
+        def size(self):
+            return len(self.obs)
+
+        def __len__(self):
+            return len(self.obs)
+
+        def getObs(self, i):
+            return self.obs[i]
+
+        def __getitem__(self, i):
+            return self.obs[i]
+
+        def __iter__(self):
+            return iter(self.obs)
+
+        def getFirstObs(self):
+            return self.obs[0]
+    fn = absint.funcs(ctx, 'tracklib.core.spatial_index', {'ENUCoords': lambda x, y, z=0: Coord(x, y), 'GeoCoords': lambda x, y, z=0: Coord(x, y)})
+
+    def index(fill=True):
+        grid = [[([('cell', i, j)] if fill else []) for j in range(LS)] for i in range(CS)]
+        return absint.instance(ctx, SI, {'grid': grid, 'csize': CS, 'lsize': LS, 'xmin': 0.0, 'ymin': 0.0, 'xmax': float(CS), 'ymax': float(LS),
+                                         'dX': 1.0, 'dY': 1.0, 'inventaire': set(), 'collection': None, 'verbose': False}, fn)
+
+    def cell_of(c):
+        return (min(math.floor(c.x), CS - 1), min(math.floor(c.y), LS - 1))
+
+    def window(cell, u):
+        return {('cell', i, j) for i in range(max(cell[0] - u, 0), min(cell[0] + u + 1, CS)) for j in range(max(cell[1] - u, 0), min(cell[1] + u + 1, LS))}
+
+    def between(c1, c2):
+        """cells certainly met by the segment: those of its end points, and for an axis-parallel segment off the grid lines the cells in between"""
+        a, b = cell_of(c1), cell_of(c2)
+        out = {a, b}
+        if c1.y == c2.y and c1.y != math.floor(c1.y):
+            out |= {(i, a[1]) for i in range(min(a[0], b[0]), max(a[0], b[0]) + 1)}
+        if c1.x == c2.x and c1.x != math.floor(c1.x):
+            out |= {(a[0], j) for j in range(min(a[1], b[1]), max(a[1], b[1]) + 1)}
+        return out
+    n = {'cases': 0}
+    found = []
+
+    def call(what, method, *args, **kw):
+        n['cases'] += 1
+        try:
+            return index().call(method, *args, **kw) if not isinstance(what, orders.Obj) else what.call(method, *args, **kw)
+        except orders.Unsupported as ex:
+            raise shape_error('SpatialIndex.%s not interpretable: %s' % (method, ex), f0.loc())
+
+    def need(key, desc, got, want, case, method):
+        gs = set(got) if isinstance(got, (list, set, tuple)) else None
+        if gs is None or not set(want) <= gs:
+            if not any(k == key for k, _ in found):
+                fi = ctx.prog.method(SI, method) if hasattr(ctx.prog, 'method') else None
+                found.append((key, (desc, dict(case, **{'returned': sorted(map(repr, gs)) if gs is not None else repr(got),
+                                                       'missing': sorted(map(repr, set(want) - (gs or set())))}), method)))
+    xs = [0.0, 0.5, 1.0, 2.5, float(CS)]
+    ys = [0.0, 0.5, 1.5, float(LS)]
+    pts = [Coord(x, y) for x in xs for y in ys]
+    try:
+        for i, j, u in itertools.product(range(CS), range(LS), range(4)):
+            got = call(None, '__neighboringcells', i, j, u, False)
+            want = {(a, b) for _, a, b in window((i, j), u)}
+            gs = set(tuple(c) for c in got) if isinstance(got, (list, set)) else None
+            if gs is None or not want <= gs or any(not (0 <= a < CS and 0 <= b < LS) for a, b in gs):
+                if not any(k == 'window' for k, _ in found):
+                    found.append(('window', ('the window of radius u around cell (i, j) is every cell (i-u..i+u, j-u..j+u) of the grid, columns clipped by the column count and rows by the row count',
+                                             {'cell': [i, j], 'u': u, 'grid (columns, rows)': [CS, LS], 'returned': sorted(gs) if gs is not None else repr(got),
+                                              'expected': sorted(want)}, '__neighboringcells')))
+            need('req-ij', 'request(i, j) returns the data registered in cell (i, j)', call(None, 'request', i, j), [('cell', i, j)], {'cell': [i, j]}, 'request')
+            need('nb-ij', 'neighborhood(i, j, u) returns the data of every cell of the window', call(None, 'neighborhood', i, j, u), window((i, j), u),
+                 {'cell': [i, j], 'u': u}, 'neighborhood')
+        for c in pts:
+            need('req-pt', 'request(point) returns the data of the cell containing the point (closed upper border folded into the last cell)',
+                 call(None, 'request', c), [('cell',) + cell_of(c)], {'point': repr(c)}, 'request')
+            for u in (0, 1, 2):
+                need('nb-pt', 'neighborhood(point, unit=u) returns the data of every cell within u cells of the one containing the point',
+                     call(None, 'neighborhood', c, None, u), window(cell_of(c), u), {'point': repr(c), 'u': u}, 'neighborhood')
+                need('nb-pt', 'neighborhood(point, unit=u) returns the data of every cell within u cells of the one containing the point',
+                     call(None, 'neighborhood', c, unit=u), window(cell_of(c), u), {'point': repr(c), 'u': u, 'call': 'unit passed by keyword'}, 'neighborhood')
+        for c1, c2 in itertools.permutations(pts[::3] + [Coord(0.5, 0.5), Coord(2.5, 0.5), Coord(0.5, 1.5), Coord(2.5, 1.5)], 2):
+            cells = between(c1, c2)
+            need('req-seg', 'request([p1, p2]) returns the data of every cell the segment passes through',
+                 call(None, 'request', [c1, c2]), [('cell',) + c_ for c_ in cells], {'segment': [repr(c1), repr(c2)]}, 'request')
+            for u in (0, 1):
+                want = set()
+                for c_ in cells:
+                    want |= window(c_, u)
+                need('nb-seg', 'neighborhood([p1, p2], unit=u) returns the data of every cell within u cells of a crossed cell',
+                     call(None, 'neighborhood', [c1, c2], None, u), want, {'segment': [repr(c1), repr(c2)], 'u': u}, 'neighborhood')
+        for tri in ([Coord(0.5, 0.5), Coord(2.5, 0.5), Coord(2.5, 1.5)], [Coord(3.0, 2.0), Coord(0.5, 1.5), Coord(0.0, 0.0)], [Coord(1.0, 1.0), Coord(1.0, 1.0), Coord(2.5, 1.5)]):
+            t = TrackS(tri)
+            cells = between(tri[0], tri[1]) | between(tri[1], tri[2])
+            case = {'track': [repr(c) for c in tri]}
+            need('req-trk', 'request(track) returns the data of every cell crossed by any of its segments (all consecutive vertex pairs)',
+                 call(None, 'request', t), [('cell',) + c_ for c_ in cells], case, 'request')
+            for u in (0, 1, 2):
+                want = set()
+                for c_ in cells:
+                    want |= window(c_, u)
+                need('nb-trk', 'neighborhood(track, unit=u) returns the data of every cell within u cells of a cell crossed by the track',
+                     call(None, 'neighborhood', t, None, u), want, dict(case, u=u), 'neighborhood')
+            ix = index(fill=False)
+            call(ix, 'addFeature', t, 7)
+            miss = [c_ for c_ in cells if 7 not in ix.fields['grid'][c_[0]][c_[1]]]
+            if miss and not any(k == 'register' for k, _ in found):
+                found.append(('register', ('addFeature registers the feature number in every cell its segments pass through',
+                                           dict(case, **{'cells without the feature': sorted(miss)}), 'addFeature')))
+    except (IndexError, KeyError, TypeError, AttributeError, ZeroDivisionError) as ex:
+        found.append(('fails', ('registration and queries do not fail inside the closed extent', {'exception': '%s: %s' % (type(ex).__name__, ex)}, 'request')))
+    for key, (desc, wit, method) in found:
+        ctx.violation('C08.Q', _m(ctx, method) if method.startswith('__') else ctx.prog.func(SI + '.' + method), desc, wit, key=key)
+    if not found:
+        for desc in ('__neighboringcells: full clipped (2u+1)^2 window on the 3 x 2 grid, u = 0..3', 'request(i, j) / request(point) / request(segment) / request(track) return the data of every cell met',
+                     'neighborhood(i, j, u) / (point) / (segment) / (track) return the data of every cell within u cells of a cell met, u reaching the window whatever the call form',
+                     'addFeature registers a track in every cell its segments pass through'):
+            ctx.ok('C08.Q', f0, desc + ' [%d interpreted calls]' % n['cases'])
+    ctx.extra['C08.Q interpreted calls'] = n['cases']
+
+
 RULES = [
+    ('C08.Q', rule_Q, 'quick'),
     ('C08.K', rule_K, 'quick'),
     ('C08.M', rule_M, 'quick'),
     ('C08.B', rule_B, 'quick'),
